@@ -364,7 +364,9 @@ class Throttle:
             if self._start is None:
                 self._start = start
             if start - self._start > self.reset_rate:
-                self._sum -= round((start - self._start) * self._limit)
+                # exact budget of elapsed window: rounding would let the
+                # stream run ahead of (or lag behind) the limit
+                self._sum -= (start - self._start) * self._limit
                 self._start = start
             self._sum += len(data)
 
